@@ -763,6 +763,10 @@ class S3StorageBackend(StorageBackend):
         from .s3_consistency import with_s3_retry
 
         s3_prefix = self._get_s3_key(prefix)
+        # Directory semantics, like the local backend: listing "data" must not
+        # return "data_old/..." or "database/..." (a raw key-prefix match would).
+        if s3_prefix and not s3_prefix.endswith("/"):
+            s3_prefix += "/"
 
         def list_op() -> List[str]:
             result = []
